@@ -7,6 +7,10 @@ VERUS_UNITS = {
 PROPERTIES = {
     "C01": {"verus": ["V-frame"], "kani": ["K-number"]},
     "C05": {"verus": ["V-frame"], "kani": ["K-emit"]},
-    "C06": {"verus": ["V-frame"], "kani": ["K-number", "K-emit"]},
+    "C06": {"verus": ["V-frame", "V-vmproto"], "kani": ["K-number", "K-emit"]},
+    "C04": {"verus": ["V-vmproto"], "kani": []},
+    "C07": {"verus": ["V-vmproto"], "kani": []},
+    "C08": {"verus": ["V-vmproto"], "kani": []},
+    "C12": {"verus": ["V-vmproto"], "kani": []},
     "C14": {"verus": [], "kani": ["K-number"]},
 }
